@@ -14,7 +14,7 @@ import subprocess
 
 import vlib
 
-OPS = "TGDCX"
+OPS = "TGDCXE"
 FDS = [100, 3, 0, 7]
 # sha256 of the anchored part of unixfd.rs (everything above `impl Signature for UnixFd`), with
 # whitespace removed, at the time the model was written; a different text makes the quick tier
@@ -24,7 +24,9 @@ ANCHOR_SHA = "d41247189ab5ae74"
 
 # ----------------------------------------------------------------------------- programs
 
-def all_programs(maxlen):
+def all_programs(maxlen, ops="TGDCXE"):
+    """every program of at most maxlen operations that respects ownership (a clone and a dup are
+    given the next handle number, which later operations may use)"""
     out = []
 
     def go(p, live, nx):
@@ -32,11 +34,11 @@ def all_programs(maxlen):
         if len(p) == maxlen:
             return
         for h in sorted(live):
-            for o in OPS:
+            for o in ops:
                 p.append(o + str(h))
                 if o in "TX":
                     go(p, live - {h}, nx)
-                elif o == "C":
+                elif o in "CD":
                     go(p, live | {nx}, nx + 1)
                 else:
                     go(p, live, nx)
@@ -48,18 +50,18 @@ def all_programs(maxlen):
 
 def rand_program(rng, maxlen, notake=False):
     """notake: no take, and the program ends by dropping every handle it still owns (the
-    close-by-the-last-drop path), which may make it one or two operations longer than maxlen"""
+    close-by-the-last-drop path), which may make it longer than maxlen"""
     n = min(maxlen, rng.choice([0, 1, 2, 2, 3, 3, 3]))
     p, live, nx = [], {0}, 1
     for _ in range(n):
         if not live:
             break
         h = rng.choice(sorted(live))
-        o = rng.choice("GDCX" if notake else "TTGDCXX")
+        o = rng.choice("GDDCXEN" if notake else "TTGDDCXXEN")
         p.append(o + str(h))
         if o in "TX":
             live.discard(h)
-        elif o == "C":
+        elif o in "CD":
             live.add(nx)
             nx += 1
     if notake:
@@ -70,6 +72,8 @@ def rand_program(rng, maxlen, notake=False):
 
 
 def final_live(p):
+    """static ownership check (the model's own_ok): the handle numbers left at the end, or None
+    if the program uses a handle it cannot own"""
     live, nx = {0}, 1
     for op in p:
         o, h = op[0], int(op[1:])
@@ -77,7 +81,7 @@ def final_live(p):
             return None
         if o in "TX":
             live.discard(h)
-        elif o == "C":
+        elif o in "CD":
             live.add(nx)
             nx += 1
     return live
@@ -107,114 +111,180 @@ def parse_out(out):
     lst = lambda s: [] if s.strip() in ("-", "") else [x.strip() for x in s.split(",")]
     res = [lst(r) for r in f[0].split("|")]
     sysc = lst(f[1])
-    opn = [int(x) for x in lst(f[2])]
-    pts = []
+    try:
+        opn = [int(x) for x in lst(f[2])]
+    except ValueError:
+        return None
+    steps = []
     for x in lst(f[3]):
         m = re.match(r"^(\d+)\.(\d+):([a-z.]+)$", x)
-        if not m:
-            return None
-        pts.append((int(m.group(1)), int(m.group(2)), m.group(3)))
-    return res, sysc, opn, pts
+        if m:
+            steps.append(("P", int(m.group(1)), int(m.group(2)), m.group(3)))
+            continue
+        m = re.match(r"^(\w+):(close|dup)\((-?\d+)\)(?:=(-?\d+|ERR|EBADF))?$", x)
+        if m:
+            steps.append(("S", m.group(1), m.group(2), int(m.group(3)), m.group(4)))
+            continue
+        return None
+    return res, sysc, opn, steps
+
+
+def points_of(po):
+    return [(x[1], x[2], x[3]) for x in po[3] if x[0] == "P"]
 
 
 def property_violations(fd0, progs, out):
-    """clauses (a)-(e) of C12 evaluated on what the implementation did. Returns a list of strings
-    (empty = property holds on this execution), or None when the output cannot be interpreted."""
+    """clauses (a)-(e) of C12 evaluated on what the implementation did, for the shared object
+    and for every object a dup created (objects are named by the descriptor they were created
+    over). Returns a list of strings (empty = property holds on this execution), or None when the
+    output cannot be interpreted."""
     po = parse_out(out)
     if po is None:
         return None
-    res, sysc, opn, pts = po
+    res, sysc, opn, steps = po
     if len(res) != len(progs):
         return None
     bad = []
-    takes = []
+    # which object does each operation work on? (handles are followed through clone and dup results)
+    opobj, kind, result = {}, {}, {}
+    takes = {}          # object -> [(t, i, value)]
+    objects = {fd0}
     for t, (p, r) in enumerate(zip(progs, res)):
         if len(p) != len(r):
             return None
+        handles, nx = {0: fd0}, 1
         for i, (op, x) in enumerate(zip(p, r)):
-            k = op[0]
-            if k in "CX":
-                if x != k:
+            k, h = op[0], int(op[1:])
+            kind[(t, i)] = k
+            result[(t, i)] = x
+            if x == "S":
+                if h in handles:
                     return None
+                if k in "CD":
+                    nx += 1
                 continue
-            m = re.match(r"^([TGD])=(-?\d+|none|gone)$", x)
-            if not m or m.group(1) != k:
+            if h not in handles:
                 return None
-            v = m.group(2)
-            if k == "T" and v != "none":
-                takes.append((t, i, int(v)))
-                if int(v) != fd0:
-                    bad.append("(a) take returned %s, not the original descriptor %d" % (v, fd0))
-            if k == "G" and v != "none" and int(v) != fd0:
-                bad.append("(a) get returned %s, not the original descriptor %d" % (v, fd0))
-    if len(takes) > 1:
-        bad.append("(a) %d takes returned Some: %s" % (len(takes), takes))
-    # (b) operations that start after the successful take's swap report gone
-    first_pt = {}
-    for pos, (t, i, name) in enumerate(pts):
-        first_pt.setdefault((t, i), pos)
-    if takes:
-        t0, i0, _ = takes[0]
-        swap = [pos for pos, (t, i, name) in enumerate(pts) if (t, i) == (t0, i0) and name == "take.cas"]
-        if not swap:  # no compare_exchange step seen: the handle's decrement is certainly after the swap
-            swap = [pos for pos, (t, i, name) in enumerate(pts) if (t, i) == (t0, i0) and name == "handle.drop"]
-        if swap:
-            sp = swap[0]
-            for t, (p, r) in enumerate(zip(progs, res)):
-                for i, (op, x) in enumerate(zip(p, r)):
-                    if op[0] in "TGD" and (t, i) != (t0, i0) and first_pt.get((t, i), -1) > sp:
-                        if not (x.endswith("=none") or x.endswith("=gone")):
-                            bad.append("(b) thread %d op %d (%s) started after the take's swap but returned %s" % (t, i, op, x))
-    # dup / close calls
-    closes, dups = [], []
-    for s in sysc:
-        m = re.match(r"^close\((-?\d+)\)(=EBADF)?@(\w+)$", s)
-        if m:
-            if m.group(2):
-                bad.append("(e) close of a descriptor that is not open (double close or bogus number): %s" % s)
-            closes.append((int(m.group(1)), m.group(3)))
-            continue
-        m = re.match(r"^dup\((-?\d+)\)=(-?\d+|EBADF)@(\w+)$", s)
-        if m:
-            if m.group(2) == "EBADF":
-                bad.append("(e) dup on a descriptor that is not open: %s" % s)
+            f = handles[h]
+            opobj[(t, i)] = f
+            if k == "C":
+                if x != "C":
+                    return None
+                handles[nx] = f
+                nx += 1
+            elif k == "X":
+                if x != "X":
+                    return None
+                del handles[h]
+            elif k == "T":
+                m = re.match(r"^T=(-?\d+|none)$", x)
+                if not m:
+                    return None
+                del handles[h]
+                if m.group(1) != "none":
+                    takes.setdefault(f, []).append((t, i, int(m.group(1))))
+                    if int(m.group(1)) != f:
+                        bad.append("(a) take on the handle of descriptor %d returned %s" % (f, m.group(1)))
+            elif k == "G":
+                m = re.match(r"^G=(-?\d+|none)$", x)
+                if not m:
+                    return None
+                if m.group(1) != "none" and int(m.group(1)) != f:
+                    bad.append("(a) get on the handle of descriptor %d returned %s" % (f, m.group(1)))
+            elif k == "D":
+                m = re.match(r"^D=(-?\d+|gone|err)$", x)
+                if not m:
+                    return None
+                if m.group(1) in ("gone", "err"):
+                    if m.group(1) == "err":
+                        bad.append("dup failed although the descriptor table had room: %s" % x)
+                    nx += 1
+                else:
+                    n = int(m.group(1))
+                    if n in objects:
+                        bad.append("(e) dup returned %d, the descriptor of an existing object" % n)
+                    objects.add(n)
+                    handles[nx] = n
+                    nx += 1
+            elif k in "EN":
+                if x not in ("D=err", "D=gone"):
+                    bad.append("dup(2) failed but UnixFd::dup returned %s" % x)
             else:
-                dups.append((int(m.group(1)), int(m.group(2)), m.group(3)))
+                return None
+    for f, tk in takes.items():
+        if len(tk) > 1:
+            bad.append("(a) %d takes of descriptor %d returned Some: %s" % (len(tk), f, tk))
+    # (b) operations on an object that start after its successful take's swap report gone
+    first_pt = {}
+    pos_of = []
+    for pos, st in enumerate(steps):
+        if st[0] == "P":
+            first_pt.setdefault((st[1], st[2]), pos)
+    for f, tk in takes.items():
+        t0, i0, _ = tk[0]
+        swap = [pos for pos, st in enumerate(steps) if st[0] == "P" and (st[1], st[2]) == (t0, i0) and st[3] == "take.cas"]
+        if not swap:  # no compare_exchange step seen: the handle's decrement is certainly after the swap
+            swap = [pos for pos, st in enumerate(steps) if st[0] == "P" and (st[1], st[2]) == (t0, i0) and st[3] == "handle.drop"]
+        if not swap:
             continue
-        return None
-    cl_fds = [c[0] for c in closes]
-    if len(set(cl_fds)) != len(cl_fds):
-        bad.append("(e) a descriptor was closed twice: %s" % closes)
-    for fd, who in closes:
-        if fd != fd0:
-            bad.append("(e) the library closed %d, which is not the shared descriptor" % fd)
-    dupnums = [d[1] for d in dups]
-    for n in dupnums:
-        if n == fd0 or n in cl_fds or n not in opn:
-            bad.append("(e) dup result %d is the shared descriptor / was closed by the library" % n)
-    n0 = cl_fds.count(fd0)
-    all_dropped = all(final_live(p) == set() for p in progs)
-    if takes:
-        if n0 != 0:
-            bad.append("(d) a take succeeded but the library closed the descriptor")
-    elif all_dropped:
-        if n0 != 1:
-            bad.append("(c) nobody took the descriptor and every handle was dropped, but close(%d) was called %d times" % (fd0, n0))
+        for (t, i), g in opobj.items():
+            if g == f and kind[(t, i)] in "TGDEN" and (t, i) != (t0, i0) and first_pt.get((t, i), -1) > swap[0]:
+                x = result[(t, i)]
+                if not (x.endswith("=none") or x.endswith("=gone")):
+                    bad.append("(b) thread %d op %d (%s on descriptor %d) started after the take's swap but returned %s"
+                               % (t, i, progs[t][i], f, x))
+    # (c)(d)(e): follow the number of live handles of every object through the sequence of steps
+    count = {fd0: len(progs)}
+    last_drop = {}
+    closed = {}
+    seq_sys = []
+    for st in steps:
+        if st[0] == "P":
+            _, t, i, name = st
+            f = opobj.get((t, i))
+            if name == "clone.inc" and f is not None:
+                count[f] = count.get(f, 0) + 1
+            elif name == "handle.drop" and f is not None:
+                count[f] = count.get(f, 0) - 1
+                if count[f] == 0:
+                    last_drop[f] = t
         else:
-            drops = [pos for pos, (t, i, name) in enumerate(pts) if name in ("handle.drop",)]
-            cls = [pos for pos, (t, i, name) in enumerate(pts) if name == "drop.close"]
-            who = [c[1] for c in closes if c[0] == fd0][0]
-            if drops and cls:
-                last = drops[-1]
-                if cls[0] < last:
-                    bad.append("(c) close was called before the last handle was dropped")
-                if str(pts[last][0]) != who or pts[cls[0]][0] != pts[last][0]:
-                    bad.append("(c) close was not made by the thread that dropped the last handle")
-    else:
-        if n0 != 0:
-            bad.append("(c) a handle is still alive but the library closed the descriptor")
-    if (fd0 in opn) != (n0 == 0):
-        bad.append("(c/e) simulated table inconsistent: fd0 open=%s after %d closes" % (fd0 in opn, n0))
+            _, who, call, arg, r = st
+            seq_sys.append("%s(%d)%s@%s" % (call, arg, "" if r is None else "=" + r, who))
+            if r == "EBADF":
+                bad.append("(e) %s(%d) on a descriptor that is not open (double close or bogus number), by thread %s" % (call, arg, who))
+                if call == "close":
+                    closed[arg] = closed.get(arg, 0) + 1
+                continue
+            if call == "dup":
+                if r != "ERR":
+                    count[int(r)] = 1
+                continue
+            closed[arg] = closed.get(arg, 0) + 1
+            if arg not in objects:
+                bad.append("(e) the library closed %d, which is not a descriptor it owns" % arg)
+                continue
+            if count.get(arg, 0) != 0:
+                bad.append("(c) close(%d) by thread %s while %d handle(s) on it are still alive (before the last drop)"
+                           % (arg, who, count.get(arg, 0)))
+            elif str(last_drop.get(arg)) != who:
+                bad.append("(c) close(%d) was made by thread %s, the last handle was dropped by thread %s" % (arg, who, last_drop.get(arg)))
+    if seq_sys != sysc:
+        return None
+    for f in objects:
+        n = closed.get(f, 0)
+        if n > 1:
+            bad.append("(e) descriptor %d was closed %d times" % (f, n))
+        if f in takes:
+            if n != 0:
+                bad.append("(d) a take of descriptor %d succeeded but the library closed it" % f)
+        elif count.get(f, 0) == 0:
+            if n != 1:
+                bad.append("(c) nobody took descriptor %d and every handle on it was dropped, but close was called %d times" % (f, n))
+        elif n != 0:
+            bad.append("(c) a handle on descriptor %d is still alive but the library closed it" % f)
+        if (f in opn) != (n == 0):
+            bad.append("(c/e) simulated table inconsistent: descriptor %d open=%s after %d closes" % (f, f in opn, n))
     return bad
 
 
@@ -239,21 +309,30 @@ class Runner:
         ctx = self.ctx
         if not lines:
             return
-        ok, impl, err = vlib.par_run_lines(self.exe, [], lines, timeout=1800)
+        ok, impl, err = vlib.par_run_lines(self.exe, [], lines, timeout=3600)
         if not ok:
             ctx.tie_broken("correspondence: the controller harness failed on a batch (%s)" % kind, err[-3000:])
             return
-        ok, mod, err = vlib.par_run_lines(self.model, ["run"], lines, timeout=1800)
+        # the watchdog is a hang detector only: under heavy machine load a step can take long, so a
+        # HANG line is re-run alone, once, with a much longer deadline before it counts
+        for k, a in enumerate(impl):
+            if a.startswith("HANG"):
+                ctx.count("hang_reruns")
+                rc, again, _ = vlib.run_lines(self.exe, [], [lines[k]], timeout=1200, env={"C12_WATCHDOG_S": "600"})
+                if rc == 0 and len(again) == 1:
+                    impl[k] = again[0]
+        ok, mod, err = vlib.par_run_lines(self.model, ["run"], lines, timeout=3600)
         if not ok:
             raise vlib.BrokenTie("model driver failed", err[-2000:])
         for line, a, b in zip(lines, impl, mod):
             fd0, progs, sched = parse_line(line)
             v = property_violations(fd0, progs, a)
             po = parse_out(a)
-            nthreads_active = len({p[0] for p in po[3]}) if po else 0
+            pts = points_of(po) if po else []
+            nthreads_active = len({p[0] for p in pts})
             canon = (tuple(progs), a.split(";")[3] if po else a)
             ctx.case(canon, nontrivial=nthreads_active >= 2,
-                     sample={"input": line, "impl": a, "kind": kind} if nthreads_active >= 2 and len(po[3]) >= 6 else None)
+                     sample={"input": line, "impl": a, "kind": kind} if nthreads_active >= 2 and len(pts) >= 6 else None)
             self.account(kind, progs, sched, po, a)
             if v:
                 self.nviol += 1
@@ -267,16 +346,28 @@ class Runner:
         ctx = self.ctx
         ctx.count("kind:" + kind)
         ctx.count("threads:%d" % len(progs))
+        names = {"T": "take", "G": "get", "D": "dup", "E": "dup_failing_EMFILE", "N": "dup_failing_ENFILE", "C": "clone", "X": "drop"}
         for p in progs:
             for op in p:
-                ctx.count("op:" + {"T": "take", "G": "get", "D": "dup", "C": "clone", "X": "drop"}[op[0]])
+                ctx.count("op:" + names[op[0]])
         ctx.count("schedule_len:%s" % ("0" if not sched else "1-4" if len(sched) <= 4 else "5-9" if len(sched) <= 9 else "10-19" if len(sched) <= 19 else "20+"))
         if po:
-            res, sysc, opn, pts = po
+            res, sysc, opn, steps = po
+            pts = points_of(po)
             ctx.count("atomic_steps:%s" % ("0-4" if len(pts) <= 4 else "5-9" if len(pts) <= 9 else "10-19" if len(pts) <= 19 else "20+"))
             taken = any(x.startswith("T=") and x != "T=none" for r in res for x in r)
-            closed = any(s.startswith("close(") for s in sysc)
-            ctx.count("outcome:" + ("taken" if taken else "closed_by_last_drop" if closed else "still_alive"))
+            ncl = sum(1 for s in sysc if s.startswith("close("))
+            ctx.count("outcome:" + ("taken" if taken else "closed_by_last_drop" if ncl else "still_alive"))
+            if any(s.startswith("dup(") and "=ERR" in s for s in sysc):
+                ctx.count("dup_syscall_failed")
+                if len({p[0] for p in pts}) >= 2:
+                    ctx.count("dup_syscall_failed_with_other_threads_active")
+            if any(s.startswith("dup(") and "=ERR" not in s for s in sysc):
+                ctx.count("dup_created_object")
+            if ncl >= 2:
+                ctx.count("two_objects_closed")
+            if any(x == "S" for r in res for x in r):
+                ctx.count("operation_skipped_handle_never_created")
             # an operation interrupted by another thread between two of its own atomic actions
             inter = False
             last = {}
@@ -336,7 +427,7 @@ def anchor_sha():
 
 def coq_term(line):
     fd0, progs, sched = parse_line(line)
-    name = {"T": "Take", "G": "Get", "D": "Dup", "C": "Clone", "X": "Drop"}
+    name = {"T": "Take", "G": "Get", "D": "Dup", "E": "DupFail", "N": "DupFail", "C": "Clone", "X": "Drop"}
     ps = "[" + "; ".join("[" + "; ".join("%s %s%%nat" % (name[o[0]], o[1:]) for o in p) + "]" for p in progs) + "]"
     ss = "[" + "; ".join("%d%%nat" % t for t in sched) + "]"
     return "(encode (observe (%d)%%Z %s %s))" % (fd0, ps, ss)
@@ -406,13 +497,16 @@ def report(ctx, rn):
 # ----------------------------------------------------------------------------- entry points
 
 def setup(ctx):
-    ctx.rule = ("a case = (fd0, one program per thread over {take,get,dup,clone,drop} on thread-local handles respecting "
-                "ownership, schedule = list of thread ids); one schedule entry = one atomic action (load / compare_exchange / "
-                "Arc increment / Arc decrement / dup / close) of the real UnixFd, then run-to-completion lowest thread first. "
-                "Exhaustive part: every program pair of 2 threads x <=2 ops and every program triple of 3 threads x <=1 op with "
-                "ALL maximal interleavings (enumerated on the model); sampled part: 2-3 threads x <=3 ops (30%: take-free programs that end by dropping every handle, <=4 ops) with random schedules "
-                "(thorough: also all interleavings of 2 threads x <=3 ops). distinct = distinct (programs, executed sequence of "
-                "(thread, op, point)); non-trivial = at least two threads performed atomic actions")
+    ctx.rule = ("a case = (fd0, one program per thread over {take,get,dup,dup whose dup(2) fails with EMFILE/ENFILE,clone,drop} on "
+                "thread-local handles respecting ownership - the UnixFd returned by a dup is a handle like any other and is "
+                "taken/cloned/dup'ed/dropped by later operations -, schedule = list of thread ids); one schedule entry = one atomic "
+                "action (load / compare_exchange / Arc increment / Arc decrement / dup / close) of the real UnixFd, then "
+                "run-to-completion lowest thread first. Small scopes: program pairs of 2 threads x <=2 ops and triples of 3 threads "
+                "x <=1 op with ALL maximal interleavings enumerated on the model (thorough: every pair and triple; quick: a seeded "
+                "sample of 320 pairs and 90 triples); sampled part: 2-3 threads x <=3 ops (30%: take-free programs that end by "
+                "dropping every handle) with random schedules; thorough: also all interleavings of 5000 random pairs of 2 threads "
+                "x <=3 ops. distinct = distinct (programs, executed sequence of (thread, op, point) and system calls); non-trivial "
+                "= at least two threads performed atomic actions")
     ctx.trusted = [
         "Coq 8.16.1 kernel incl. vm_compute (Print Assumptions: closed under the global context)",
         "std::sync::Arc modelled: clone = atomic increment, drop = atomic decrement, destructor runs once in the thread that reached 0",
@@ -425,7 +519,7 @@ def setup(ctx):
     ctx.assumptions = [
         "each handle is used by one thread and not after it was dropped or taken (Rust ownership; programs violating it are not generated)",
         "fd0 <> -1 (UnixFd::new(-1) is born in the 'taken' state)",
-        "dup(2) does not fail in the simulated table (the Io error path of UnixFd::dup is not exercised)",
+        "dup(2) fails only where the program says so (operations E/N: EMFILE/ENFILE); the errno value itself is not modelled",
         "the get-then-dup(2) window against a taker who closes and reuses the number is outside the statement (DESIGN.md C12 residual)",
     ]
 
@@ -452,10 +546,15 @@ def run(ctx):
                 corpus += [l.strip() for l in open(os.path.join(cdir, f)) if l.strip() and not l.startswith("#")]
     rn.batch(corpus, "corpus")
 
-    # --- exhaustive small scopes: all interleavings
+    # --- small scopes: ALL interleavings of every program set (quick: of a seeded sample of the sets)
     P1, P2 = all_programs(1), all_programs(2)
     fd0 = rng.choice(FDS)
-    heads = [(fd0, (a, b)) for a in P2 for b in P2] + [(fd0, (a, b, c)) for a in P1 for b in P1 for c in P1]
+    pairs = [(a, b) for a in P2 for b in P2]
+    triples = [(a, b, c) for a in P1 for b in P1 for c in P1]
+    if not thorough and not drift:
+        pairs = rng.sample(pairs, 320)
+        triples = rng.sample(triples, 90)
+    heads = [(fd0, p) for p in pairs + triples]
     scheds = rn.enum([mk_line(f, p, []) for f, p in heads], 10 ** 6)
     lines = []
     complete = True
@@ -465,9 +564,11 @@ def run(ctx):
             continue
         for one in s.split(" "):
             lines.append(mk_line(f, p, [int(x) for x in one.split(",")] if one not in ("", "-") else []))
-    rn.batch(lines, "exhaustive-2x2-3x1")
-    ctx.extra["exhaustive_scope"] = "all interleavings of all %d program pairs (2 threads x <=2 ops) and all %d triples (3 threads x <=1 op): %d schedules" % (len(P2) ** 2, len(P1) ** 3, len(lines))
-    ctx.exhaustive = complete
+    rn.batch(lines, "all-interleavings-2x2-3x1")
+    ctx.extra["exhaustive_scope"] = ("all interleavings of %d of the %d program pairs (2 threads x <=2 ops over take/get/dup/failing dup/clone/drop) "
+                                     "and %d of the %d triples (3 threads x <=1 op): %d schedules"
+                                     % (len(pairs), len(P2) ** 2, len(triples), len(P1) ** 3, len(lines)))
+    ctx.exhaustive = complete and (thorough or drift)
     sample_for_coq = rng.sample(lines, min(len(lines), 40))
 
     # --- sampled: 2-3 threads x <=3 ops, random schedules (entries may name finished or non-existing threads)
@@ -484,23 +585,23 @@ def run(ctx):
     rn.batch(lines, "random-2-3x3")
     sample_for_coq += rng.sample(lines, min(len(lines), 60 if not thorough else 400))
 
-    # --- thorough: all interleavings of 2 threads x <=3 ops (about 2 million), in chunks
+    # --- thorough: all interleavings of a large sample of the 162 409 pairs of 2 threads x <=3 ops, in chunks
     if thorough or drift:
         P3 = all_programs(3)
-        pairs = [(a, b) for a in P3 for b in P3]
-        if not thorough:
-            pairs = rng.sample(pairs, 2500)
-        for k in range(0, len(pairs), 1500):
-            chunk = pairs[k:k + 1500]
+        npairs = 5000 if thorough else 500
+        pairs = [(rng.choice(P3), rng.choice(P3)) for _ in range(npairs)]
+        for k in range(0, len(pairs), 500):
+            chunk = pairs[k:k + 500]
             f = rng.choice(FDS)
-            scheds = rn.enum([mk_line(f, p, []) for p in chunk], 10 ** 5)
+            scheds = rn.enum([mk_line(f, p, []) for p in chunk], 20000)
             lines = []
             for p, s in zip(chunk, scheds):
                 if s == "TOOMANY":
+                    ctx.count("2x3_pairs_skipped_more_than_20000_interleavings")
                     continue
                 for one in s.split(" "):
                     lines.append(mk_line(f, p, [int(x) for x in one.split(",")] if one not in ("", "-") else []))
-            rn.batch(lines, "exhaustive-2x3")
+            rn.batch(lines, "all-interleavings-2x3-sampled-pairs")
             if len(rn.failing) > 2000:
                 break
 
